@@ -44,10 +44,11 @@ structure Fixes where
   fpark : Bool := false    -- F33: a frame after a cut-off frame whose rows were all kept starts on a fresh row
   fbottom : Bool := false   -- F35: blank rows of a shrunk bottom-aligned frame stay with a reaped first bar
   fretarget : Bool := false -- F34: `MultiProgress::set_draw_target` forgets the zombie rows of the old target
+  fblank : Bool := false    -- F36: the blank rows kept with an immediately reaped first bar are those of the painted frame
 deriving Repr, DecidableEq
 
 def Fixes.none : Fixes := {}
-def Fixes.all : Fixes := { f4 := true, f23 := true, f22 := true, fzomb := true, fstale := true, f31 := true, fkept := true, fpark := true, fretarget := true, fbottom := true }
+def Fixes.all : Fixes := { f4 := true, f23 := true, f22 := true, fzomb := true, fstale := true, f31 := true, fkept := true, fpark := true, fretarget := true, fbottom := true, fblank := true }
 
 /-- the repairs the repository contains now (`fix:` commits); the correspondence harness runs the model
 with exactly this value (`FX=current`), and the property theorems are stated for it -/
